@@ -160,7 +160,13 @@ func judgeLO(w gen.World, call LOCall, truth semkit.LOTruth, objs []string, err 
 			if semkit.Contains(truth.Unknown, o) {
 				return "", fmt.Sprintf("returned %s whose permission hinges on a condition that cannot be evaluated (truth=%v)", o, truth.True)
 			}
-			return "", fmt.Sprintf("returned %s which does not hold the relation (truth=%v)", o, truth.True)
+			sig := ""
+			if semkit.ExclusionGrantThroughSortedReadDedup(w, m.Request{User: call.Req.User, Ctx: call.Req.Ctx, Contextual: call.Req.Contextual}) {
+				// the per-candidate Check loses a member of a subtracted set (recorded under C01: sorted read keeps
+				// the first tuple per object before filtering)
+				sig = semkit.SigSortedReadDedup
+			}
+			return sig, fmt.Sprintf("returned %s which does not hold the relation (truth=%v)", o, truth.True)
 		}
 	}
 	if call.ShortDL {
